@@ -20,13 +20,13 @@ ASSUMPTIONS = ['closed feature intervals [start,end]; a range query [a,b] with a
                'a read overlaps a feature when the feature contains at least one aligned reference base (M/=/X)',
                'queries are issued after sort() as in the quantifier (add*/sort/query*); feature coordinates are >= 0',
                'strand convention for FeatureAnnotatedMolecule as documented (None unstranded, False same strand as R1, True other strand); SingleEndTranscriptFragment only checked unstranded']
-MIN_NONTRIVIAL = {'quick': 3000, 'thorough': 50000}
+MIN_NONTRIVIAL = {'quick': 3000, 'thorough': 1000000}
 REQUIRED_MONITORS = ['ret:findFeaturesAt', 'ret:findFeaturesBetween', 'ret:findFeaturesAtPysamAlign0', 'ret:findFeaturesAtPysamAlign1',
                      'ret:molecule.annotate0', 'ret:molecule.annotate1', 'ret:fragment.annotate', 'history:second_round_queries']
 
 
 def gen_cases(tier, seed):
-    n = 64 if tier == 'quick' else 800
+    n = 64 if tier == 'quick' else 5000
     return [{'i': i, 'seed': seed} for i in range(n)]
 
 
